@@ -756,12 +756,19 @@ class _PropEval:
                     return a.scale(b[1])
                 # element-wise product with the scalar step (dt, dt.reshape(-1, 1, 1), dt[i])
                 for x, y in ((a, b), (b, a)):
-                    if self.is_step(y):
-                        return _DtPoly(A, {k + 1: v for k, v in x.t.items()})
+                    c_ = self.step_coef(y)
+                    if c_ is not None:
+                        return _DtPoly(A, {k + 1: A.scale(v, c_) for k, v in x.t.items()})
                 raise AnalysisError('propagate_errors: element-wise product `%s`'
                                     % norm_text(e)[:60])
             if isinstance(e.op, ast.Div) and isinstance(b, tuple) and not isinstance(a, tuple):
                 return a.scale(1 / b[1])
+            if isinstance(e.op, ast.Div) and not isinstance(a, tuple) and \
+                    not isinstance(b, tuple) and self.step_coef(b):
+                # division by the step: a Laurent term (degree -1 if a has a dt^0 part); the
+                # consistency obligations then find a pole / a wrong order, as they should
+                c_ = self.step_coef(b)
+                return _DtPoly(A, {k - 1: A.scale(v, 1 / c_) for k, v in a.t.items()})
             raise AnalysisError('propagate_errors: operator in `%s`' % norm_text(e)[:60])
         if isinstance(e, ast.UnaryOp) and isinstance(e.op, ast.USub):
             return self.val(e.operand).scale(Fraction(-1))
@@ -821,8 +828,13 @@ class _PropEval:
         return v
 
     def is_step(self, v):
-        return isinstance(v, _DtPoly) and set(v.t) == {1} and \
-            self.A.eq(v.t[1], self.A.ident())
+        return self.step_coef(v) == 1
+
+    def step_coef(self, v):
+        """c if v is c * dt (a scalar multiple of the step), else None"""
+        if isinstance(v, _DtPoly) and set(v.t) == {1} and set(v.t[1].t) == {()}:
+            return Fraction(v.t[1].t[()])
+        return None
 
 
 def prop_consist(ctx):
@@ -845,6 +857,7 @@ def prop_consist(ctx):
     ctx.need(len(init_param) == 1, 'propagate_errors: initial-error parameter')
     E.env[init_param[0]] = E.atom('e0')
     x0 = None
+    x0_row = None
     out_T = None
     out_val = None
     body = list(f.node.body)
@@ -922,6 +935,13 @@ def prop_consist(ctx):
             if isinstance(t, ast.Subscript) and isinstance(t.value, ast.Name) and \
                     t.value.id == E.state and norm_text(t.slice) == '0':
                 x0 = (E.val(v), st)
+                continue
+            if isinstance(t, ast.Subscript) and isinstance(t.value, ast.Name) and \
+                    t.value.id == E.state and isinstance(t.slice, ast.Constant) and \
+                    isinstance(t.slice.value, int) and t.slice.value != 0:
+                # the initial error stored into another row than the first: row 0 stays
+                # uninitialised and the recursion starts from it (obligation `x0` below)
+                x0_row = (t.slice.value, st)
                 continue
             if isinstance(t, ast.Name) and isinstance(v, ast.Call) and \
                     (E.res(v.func) or '').startswith('pandas.'):
@@ -1043,9 +1063,12 @@ def prop_consist(ctx):
     want0 = A.mul(at('transform_to_internal(%s.iloc[0])' % traj), at('e0'))
     ctx.ob('PROP-CONSIST', x0 is not None and set(x0[0].t) == {0} and A.eq(x0[0].t[0], want0), None,
            'x[0] = transform_to_internal(first row) @ initial output error', f=f,
-           node=(x0[1] if x0 else f.node), key='x0',
-           why='initial internal error is not transform_to_internal(%s.iloc[0]) @ %s'
-               % (traj, init_param[0]))
+           node=(x0[1] if x0 else x0_row[1] if x0_row else f.node), key='x0',
+           why=('the initial internal error is stored into row %d of the state history: row 0, '
+                'from which the recursion starts, is never initialised' % x0_row[0])
+           if x0 is None and x0_row else
+           'initial internal error is not transform_to_internal(%s.iloc[0]) @ %s'
+           % (traj, init_param[0]))
     wantT = A.mul(at('transform_to_output(%s)' % traj), x)
     ctx.ob('PROP-CONSIST', out_val is not None and set(out_val[0].t) == {0} and
            A.eq(out_val[0].t[0], wantT), None,
